@@ -22,6 +22,11 @@ SpaceOf(name) ==
     [] name = "discr2"  -> SpDiscr(2, QI(2))
     [] name = "power1"  -> SpPower(2, 1, QI(2))          \* (uniform_discr, 1 cell of volume 2)^2
     [] name = "power2"  -> SpPower(2, 2, Q(1, 2))        \* (uniform_discr, 2 cells of volume 1/2)^2
+    \* WEIGHTED power spaces: (uniform_discr, cells of volume 1/2)^2 with weighting=[1, 4] (array) / weighting=4.0 (constant)
+    [] name = "wpowerA" -> SpWPower(2, 1, Q(1, 2), <<QOne, QI(4)>>)
+    [] name = "wpowerC" -> SpWPower(2, 1, Q(1, 2), <<QI(4), QI(4)>>)
+    [] name = "wpowerQ" -> SpWPower(2, 1, QI(2), <<Q(1, 4), QOne>>)        \* weights below 1
+    [] name = "wpower2" -> SpWPower(2, 2, Q(1, 2), <<QOne, QI(4)>>)
     [] name = "pspace1" -> SpProd(1, QI(4), Q(1, 2))     \* rn(1, weighting=4) x uniform_discr(1 cell, volume 1/2)
     [] name = "pspace2" -> SpProd(2, QI(4), Q(1, 2))
     [] name = "rn3"     -> SpRn(3)
@@ -36,6 +41,7 @@ Group(name) ==
     [] name = "ind1"   -> {"IndBox", "IndNonneg", "IndZero", "IndSum", "IndSimplex"}
     [] name = "ind2"   -> {"IndBall1", "IndBall2", "IndBallInf", "IndGroupBall"}
     [] name = "kl"     -> {"KL", "KLcc"}
+    [] name = "vf"     -> {"GroupL1", "IndGroupBall", "Huber"}      \* the vector-field functionals (point-wise norms)
     [] name = "core"   -> {"L1", "L2sq", "IndBox", "Huber"}
     [] name = "core2"  -> {"L2", "Linf", "IndBall2", "Quad"}
     [] name = "quad"   -> {"Quad"}
@@ -201,9 +207,14 @@ PairsOn(sp) ==
   {<<Leaf("L1"), Leaf("IndBallInf")>>, <<Leaf("L2"), Leaf("IndBall2")>>,
    <<LeafSC("Const", QZero, QI(3)), LeafSC("IndZero", QZero, QI(-3))>>} \cup
   (IF sp.m = 1 THEN {<<Leaf("Linf"), Leaf("IndBall1")>>} ELSE {}) \cup
-  (IF IsVF(sp) THEN {<<Leaf("GroupL1"), Leaf("IndGroupBall")>>,
-                     <<LeafS("GroupL1", QOne), LeafS("IndGroupBall", Inf)>>,     \* conjugate exponents 1 <-> inf
-                     <<LeafS("GroupL1", Inf), LeafS("IndGroupBall", QOne)>>} ELSE {}) \cup
+  (IF IsVF(sp) THEN {<<Leaf("GroupL1"), Leaf("IndGroupBall")>>} ELSE {}) \cup
+  \* conjugate exponents 1 <-> inf.  NOT on a weighted power space: with the documented weighted point-wise norms
+  \* (sum_k w_k |x_k| resp. max_k w_k |x_k|) the conjugate of the point-wise 1-norm functional in the inner product of
+  \* the space is the indicator of the UN-weighted max-norm ball (and vice versa), so these two definitions are not
+  \* conjugate to each other there (TLC refutes the pair law; the real classes are confronted with the witness-search
+  \* conjugate by the replay - finding family "group-exponent-1-inf on weighted power space")
+  (IF sp.kind = "power" THEN {<<LeafS("GroupL1", QOne), LeafS("IndGroupBall", Inf)>>,
+                              <<LeafS("GroupL1", Inf), LeafS("IndGroupBall", QOne)>>} ELSE {}) \cup
   {<<Mk("KL", QZero, QZero, PVecG(Dim(sp)), <<>>, <<>>), Mk("KLcc", QZero, QZero, PVecG(Dim(sp)), <<>>, <<>>)>>}
 PairLat == IF N = 2 THEN TupSet(N, LatQ(6, 2)) ELSE TupSet(N, LatQ(2, 1))
 \* (operators with a parameter: TLC would evaluate a zero-arity constant definition at every start-up)
